@@ -19,5 +19,5 @@ Extraction "model.ml"
   SqlSession.sconn0 SqlSession.sql_create SqlSession.sql_refresh SqlSession.sql_insert SqlSession.sql_update SqlSession.sql_delete
   SqlSession.sql_begin SqlSession.sql_commit SqlSession.sql_rollback SqlSession.sql_select SqlSession.sql_version SqlSession.sql_vacuum
   SqlSession.sql_set_write_time SqlSession.finish_rollback SqlSession.find_rows SqlSession.sql_set_deadline SqlSession.sql_changes
-  SpecMerge.interp Stmt.kv_vacuum NodeCodec.node_roundtrip Sched.sched_run Sched.finished Store.bind Client.client_reader Client.client_merger Client.client_writer Crypto.encrypt Crypto.decrypt Schema.convert_schema Schema.table_args
+  SpecMerge.interp Stmt.kv_vacuum NodeCodec.node_roundtrip Sched.sched_run Sched.finished Store.bind Client.client_reader Client.client_merger Client.client_writer Crypto.encrypt Crypto.decrypt Crypto.derive_key Schema.convert_schema Schema.table_args
   Inst.cfg_plain Inst.cfg_rows Inst.obj_eqb_plain Inst.obj_eqb_rows Inst.run_plain Inst.run_rows.
